@@ -2,9 +2,9 @@ package rules
 
 import (
 	"fmt"
-	"os"
 	"go/token"
 	"go/types"
+	"os"
 	"sort"
 	"strings"
 
@@ -923,6 +923,7 @@ func specScope(p *core.Prog) map[*ssa.Function]bool {
 //   - the store in Validate and the fallback inside the expanded-analyzer accessor,
 //   - the receiver of a reference-enumerating method (All…References, AllRefs, …),
 //   - a reviewed exception, by function, with its reason.
+//
 // Anything else (e.g. validateParameters ranging over s.analyzer.Operations()) skips every rule instance that
 // only exists after $ref resolution.
 var rawAnalyzerReviewed = map[string]string{
